@@ -17,22 +17,30 @@ META = {
              "order): a caller that completed holds a response that was delivered to it and bears its own id (no cross-talk; induction "
              "over the log, invariant 'justified'). The second half of the property (no lost responses) is stated in full and REFUTED "
              "on the faithful model by the two-caller witness; the strongest true restriction is proved (a waiter's outcome is the "
-             "first answer bearing its id among the objects it dequeued itself). The real code exhibits the refuting schedule "
+             "first answer bearing its id among the objects it dequeued itself), and so is where the finding does NOT reach: under the "
+             "stream's FIFO wake-up discipline (Model/ConcurrentFifo.v), answers that come in the order in which the callers wait, "
+             "with nothing else on the connection, all reach their callers (C18_in_request_order_nothing_lost, every number of "
+             "callers). The real code exhibits the refuting schedule "
              "(known finding 'response-discarded-by-other-waiter'); any other loss or any cross-talk is a VIOLATION. Tie: 2-4 real "
              "send_message tasks on one stream pair under the virtual clock; the actual delivery log is recorded by wrapping receive "
              "streams and replayed through the extracted model.",
     "note": "Trusted: Coq kernel, translator (errors.py classifier), extraction, virtual-clock loop. The model leaves the choice of "
-            "which waiter dequeues next open (all logs possible); the real wake-up order of anyio's memory stream is observed, not modelled.",
+            "which waiter dequeues next open (all logs possible); between poll instants the wake-up order of anyio's memory stream is "
+            "modelled as FIFO (fifo_log) and compared with the recorded log; what the poll instants do to the order is observed, not modelled.",
     "technique": "Coq proof by induction over delivery logs; refutation by vm-checked witness; log-replay correspondence under a virtual clock",
     "design_ref": "DESIGN.md section 6 (C18)",
 }
 GEN = ["ErrorsGen.v"]
-TARGETS = ["Gen/ErrorsGen", "Model/Concurrent", "Spec/C01", "Spec/C18", "Proofs/Concurrent", "Props/C18"]
+TARGETS = ["Gen/ErrorsGen", "Model/Concurrent", "Model/ConcurrentFifo", "Spec/C01", "Spec/C18", "Proofs/Concurrent",
+           "Proofs/ConcurrentFifo", "Props/C18"]
 TRUSTED = [
     "Coq 8.16.1 kernel (coqc); coqchk in the thorough tier; vm_compute only in the Example",
     "axioms: none (Closed under the global context for every C18 theorem)",
     "translator: errors.py -> Gen/ErrorsGen.v (classifier used by the waiters)",
     "hand-written model Model/Concurrent.v (filter-and-discard waiters over a shared queue), tied by replaying the recorded delivery log",
+    "hand-written model Model/ConcurrentFifo.v (the stream's FIFO wake-up discipline between poll instants: who dequeues the next "
+    "object), tied by comparing fifo_log with the log recorded on the real anyio stream for every history whose arrivals precede the "
+    "first poll instant",
     "extraction ExtrOcamlBasic only; ocaml/main.ml",
     "modelled, not verified: anyio memory-stream wake-up order, asyncio scheduling (virtual loop)",
 ]
@@ -203,6 +211,21 @@ def explore(ctx, model, spec):
                                "(" + " ".join(f"({k} {A.enc_msg(resolve(sc['arrivals'][n][1], sc['callers']), None)})"
                                               for k, n in log if n is not None) + ")")
                           for sc, _r, log in rows])
+        # the FIFO wake-up model: for histories that are over before the first poll instant (0.5 s = 50 ticks) the recorded
+        # log - who dequeued the n-th object - is exactly fifo_log of the arrivals with all callers waiting in request order
+        fifo_rows = [(sc, log) for sc, _r, log in rows
+                     if sc["arrivals"] and all(t < 50 for t, _m in sc["arrivals"]) and all(c[1] > 50 for c in sc["callers"])]
+        fres = model.run([call(1, "(" + " ".join(A.enc_rid(c[0]) for c in sc["callers"]) + ")",
+                               "(" + " ".join(A.enc_msg(resolve(m, sc["callers"]), None) for _t, m in sc["arrivals"]) + ")")
+                          for sc, _log in fifo_rows])
+        for (sc, log), want in zip(fifo_rows, fres):
+            ctx.count("fifo-model-compared")
+            got = [k for k, _n in log]
+            order = [n for _k, n in log]
+            if list(want) != got or order != list(range(len(order))):
+                ctx.mismatch({"callers": [list(c) for c in sc["callers"]], "arrivals": [[t, list(m)] for t, m in sc["arrivals"]]},
+                             {"dequeued_by": got, "objects": order}, {"dequeued_by": list(want)},
+                             "who dequeued which object: the recorded log differs from fifo_log (Model/ConcurrentFifo.v)")
     else:
         mres = [None] * len(rows)
     reqs1, reqs2 = [], []
@@ -458,7 +481,10 @@ def run(ctx):
     ctx.rule = ("(a) 2-4 real send_message tasks on one stream pair under a virtual clock: every permutation of the answer order x 5 timing "
                 "patterns around the 0.5 s poll boundary x with/without interleaved notifications (exhaustive), plus seeded mixtures "
                 "with errors, foreign responses, same-id server requests and per-caller deadlines; the recorded delivery log is replayed "
-                "through the model; caller ids incl. twins that differ only in JSON type (\"7\" vs 7) with late answers; "
+                "through the model; caller ids incl. twins that differ only in JSON type (\"7\" vs 7) with late answers; callers with "
+                "different timeouts answered in request order at every 0.1 s (thorough 0.05 s) of the first 3 s - a loss there is "
+                "outside the recorded finding; for every history that is over before the first poll instant the recorded log is "
+                "compared with fifo_log of Model/ConcurrentFifo.v (count fifo-model-compared); "
                 "(b) 1-3 callers through the real StdioClient over a scripted child with bursts of 0..150 (thorough: 1000) unrelated "
                 "notifications written ahead of each response in one chunk; (c) 2-3 callers through the real StdioClient whose answers "
                 "arrive in ONE batch array line with a malformed member (6 kinds) at every position; (d) a library-chosen id beside an "
